@@ -32,6 +32,11 @@ for n in ns:
             res["demo_patched_tail"] = (r.stdout + r.stderr).strip().splitlines()[-1:] 
             r = subprocess.run(["/venv/bin/python", "-m", "pytest", "-q", "-p", "no:cacheprovider", "tests"], env=env, capture_output=True, text=True, cwd=t)
             res["repo_tests"] = r.stdout.strip().splitlines()[-1] if r.stdout.strip() else r.stderr[-200:]
+            if "failed" in res["repo_tests"] and "test_aes" in r.stdout and "_random" in r.stdout:
+                # tests/test_aes.py::test_aes_192/256_random build a 15-byte message once in 256 runs (Bits(getrandbits(128)) without a size)
+                # and fail on the pinned tree too: repeat once
+                r = subprocess.run(["/venv/bin/python", "-m", "pytest", "-q", "-p", "no:cacheprovider", "tests"], env=env, capture_output=True, text=True, cwd=t)
+                res["repo_tests"] = (r.stdout.strip().splitlines()[-1] if r.stdout.strip() else r.stderr[-200:]) + " (second run; first run hit the repository's own 1/256 flake in test_aes_*_random)"
             t0 = time.time()
             r = subprocess.run(["/verif/vcheck", "run", pid, "--tier", tier],
                                env=dict(os.environ, VERIF_REPO=t, VERIF_EVIDENCE_DIR=os.path.join(t, ".ev")), capture_output=True, text=True, cwd="/verif")
